@@ -168,13 +168,41 @@ func runC18(c *Ctx, pr *PropertyRun) {
 			continue
 		}
 		found := false
+		bt := p.NamedType(ip, "backend")
+		isAdapterAlloc := func(v ssa.Value) bool {
+			al, ok := v.(*ssa.Alloc)
+			return ok && bt != nil && namedOf(al.Type()) == bt
+		}
 		eachInstr(fn, func(_ *ssa.BasicBlock, in ssa.Instruction) {
-			al, ok := in.(*ssa.Alloc)
-			if !ok {
-				return
-			}
-			if n := namedOf(al.Type()); n != nil && n.Obj().Name() == "backend" && n.Obj().Pkg().Path() == ip {
-				found = true
+			switch x := in.(type) {
+			case *ssa.Alloc:
+				if isAdapterAlloc(x) {
+					found = true
+				}
+			case *ssa.Call:
+				// a constructor of the library: every return is a fresh adapter
+				f := x.Common().StaticCallee()
+				if f == nil || len(f.Blocks) == 0 || !inLib(f) || f.Signature.Results().Len() != 1 || namedOf(f.Signature.Results().At(0).Type()) != bt {
+					return
+				}
+				fresh, nret := true, 0
+				for _, b := range f.Blocks {
+					ret, isRet := b.Instrs[len(b.Instrs)-1].(*ssa.Return)
+					if !isRet {
+						continue
+					}
+					nret++
+					v := ret.Results[0]
+					if ld, isLd := v.(*ssa.UnOp); isLd && ld.Op == token.MUL {
+						v = ld.X // returned by value: a load of the local
+					}
+					if !isAdapterAlloc(v) {
+						fresh = false
+					}
+				}
+				if fresh && nret > 0 {
+					found = true
+				}
 			}
 		})
 		ad.Role("handler")
@@ -233,12 +261,18 @@ func c18Upload(c *Ctx, pr *PropertyRun, prop string) {
 		r.Violation("go-count|"+fnKey(create), p.Pos(create.Pos()), fmt.Sprintf("Client.Create has %d go statements, the protocol argument covers exactly one", len(gos)), nil)
 		return
 	}
-	mc, ok := gos[0].Call.Value.(*ssa.MakeClosure)
-	if !ok {
-		r.Undecided("go-target", p.instrPos(gos[0]), "the go statement does not start a closure: protocol not analysable")
+	// the goroutine is a closure, or a named function/method of the library
+	// that is handed the channel as an argument
+	mc, isClosure := gos[0].Call.Value.(*ssa.MakeClosure)
+	var body *ssa.Function
+	if isClosure {
+		body = mc.Fn.(*ssa.Function)
+	} else if f := gos[0].Call.StaticCallee(); f != nil && len(f.Blocks) > 0 && inLib(f) {
+		body = f
+	} else {
+		r.Undecided("go-target", p.instrPos(gos[0]), "the go statement starts neither a closure nor a function of the library: protocol not analysable")
 		return
 	}
-	body := mc.Fn.(*ssa.Function)
 	// the channel(s)
 	var chans []*ssa.MakeChan
 	eachInstr(create, func(_ *ssa.BasicBlock, in ssa.Instruction) {
@@ -259,21 +293,43 @@ func c18Upload(c *Ctx, pr *PropertyRun, prop string) {
 		r.Violation("unbuffered|"+fnKey(create), p.instrPos(ch), "the done channel must have constant capacity >= 1: with an unbuffered channel the goroutine blocks forever when the caller never calls Close (or Close fails early)", nil)
 	}
 	// which free variable of the body is the channel
-	var chFV *ssa.FreeVar
-	for i, b := range mc.Bindings {
-		if chanRoot(b) == ssa.Value(ch) && i < len(body.FreeVars) {
-			chFV = body.FreeVars[i]
+	var chFV ssa.Value
+	if isClosure {
+		for i, b := range mc.Bindings {
+			if chanRoot(b) == ssa.Value(ch) && i < len(body.FreeVars) {
+				chFV = body.FreeVars[i]
+			}
+		}
+	} else {
+		for i, a := range gos[0].Call.Args {
+			if chanRoot(a) == ssa.Value(ch) && i < len(body.Params) {
+				chFV = body.Params[i]
+			}
 		}
 	}
 	if chFV == nil {
 		r.Ob(false)
-		r.Violation("chan-not-captured|"+fnKey(create), p.instrPos(mc), "the goroutine does not capture the done channel: Close would wait forever", nil)
+		r.Violation("chan-not-captured|"+fnKey(create), p.instrPos(gos[0]), "the goroutine does not get the done channel: Close would wait forever", nil)
 		return
+	}
+	// a named goroutine function must have no other caller
+	if !isClosure {
+		for _, g := range p.ModFns {
+			if !inLib(g) || g.Synthetic != "" {
+				continue // promoted-method wrappers of embedding types are not callers of their own
+			}
+			eachCall(g, func(site ssa.CallInstruction) {
+				if site.Common().StaticCallee() == body && site != ssa.CallInstruction(gos[0]) {
+					r.Ob(false)
+					r.Violation("goroutine-fn-called|"+fnKey(g), p.instrPos(site), fnKey(body)+", the upload goroutine's function, is also called from "+fnKey(g)+": the exactly-one-send argument no longer covers every use of it", nil)
+				}
+			})
+		}
 	}
 	// channel escapes only into the closure and the returned fileWriter
 	for _, ref := range chanUses(ch) {
 		switch x := ref.(type) {
-		case *ssa.MakeClosure, *ssa.DebugRef, *ssa.ChangeType:
+		case *ssa.MakeClosure, *ssa.DebugRef, *ssa.ChangeType, *ssa.Go:
 		case *ssa.Store:
 			// either the captured local cell, or the fileWriter.done field
 			if fa, ok := x.Addr.(*ssa.FieldAddr); ok {
@@ -468,7 +524,11 @@ func c18Upload(c *Ctx, pr *PropertyRun, prop string) {
 				return
 			}
 			fa, ok := ld.X.(*ssa.FieldAddr)
-			if !ok || namedOf(fa.X.Type()) != fwT || fieldName(fa.X.Type(), fa.Field) != "done" {
+			if !ok || namedOf(fa.X.Type()) != fwT {
+				return
+			}
+			// the writer's channel field (whatever it is called)
+			if _, isChan := fa.Type().(*types.Pointer).Elem().Underlying().(*types.Chan); !isChan {
 				return
 			}
 			r.Role("done-receive")
